@@ -136,6 +136,7 @@ func rulesC01(c *Ctx) {
 	R := c.R
 	R.Rule("R1", "signing (swap) and paying/settling (melt) are cut by: inputs not spent, not pending, no duplicates, read errors not swallowed, Ys derived from the inputs", 14)
 	R.Rule("R3", "swap returns success, and stores the output signatures, only after the inputs were inserted into the spent table", 2)
+	R.Rule("R10", "the spent / pending look-ups report every matching row: the list readers return the accumulation of all rows they scan", 2)
 	R.Rule("R4", "melt pays/settles only after LOCK(inputs, quote) succeeded and the stored quote state was neither PAID nor PENDING", 9)
 	R.Rule("R5", "melt op / poll: inputs are marked spent only behind success facts, released only behind definitive-failure facts; census of every unlock/mark-spent/quote-write site", 30)
 	R.Rule("R6", "spent/pending tables: y PRIMARY KEY, secret UNIQUE; plain INSERT for every input in one transaction with rollback and commit", 14)
@@ -242,6 +243,7 @@ func rulesC01(c *Ctx) {
 	}
 
 	c.meltDecisionTable("R5", false)
+	c.readersReturnEveryRow("R10", "GetProofsUsed", "GetPendingProofs")
 	c.c01Schema()
 	c.c01YSites()
 	c.c01NoErase()
